@@ -20,7 +20,7 @@ import types
 import z3
 
 from . import core
-from .core import (Ctx, SBool, SInt, SSeq, Unmodelled, conj, disj, has_sym, is_sym, lift, mk_seq,
+from .core import (Ctx, SBool, SBVInt, SInt, SSeq, Unmodelled, conj, disj, has_sym, is_sym, lift, mk_seq,
                    mkb, mki, rng)
 from .regex import SPattern, nfa_formula
 from .streams import SymStream
@@ -272,31 +272,59 @@ _INT_EXOTIC = {bytes: rb'[ \t\n\r\x0b\x0c]*[+-]?[0-9]+(?:_[0-9]+)*[ \t\n\r\x0b\x
                str: r'[ \t\n\r\x0b\x0c]*[+-]?[0-9]+(?:_[0-9]+)*[ \t\n\r\x0b\x0c]*'}
 
 
-def sym_int_of(s):
-    """int(<symbolic digit string>): exact for [0-9]+, and for the signed /
-    underscore / whitespace-padded literals CPython also accepts (ASCII)."""
+_WSP = r'[ \t\n\r\x0b\x0c]*'
+_INT16_EXOTIC = {str: _WSP + r'[+-]?(?:0[xX]_?)?[0-9a-fA-F]+(?:_[0-9a-fA-F]+)*' + _WSP}
+_INT16_EXOTIC[bytes] = _INT16_EXOTIC[str].encode('ascii')
+
+
+def sym_int_of(s, base=10):
+    """int(<symbolic digit string>[, 16]): exact for plain digit strings, and for the signed /
+    underscore / prefixed / whitespace-padded literals CPython also accepts (ASCII)."""
     ctx = Ctx.cur
+    if base not in (10, 16):
+        raise Unmodelled('int() with base %r' % (base,))
     if not s.el:
-        raise ValueError("invalid literal for int() with base 10: ''")
-    isdig = conj(rng(e, 48, 57) for e in s.el)
+        raise ValueError("invalid literal for int() with base %d: ''" % base)
+    if base == 10:
+        isdig = conj(rng(e, 48, 57) for e in s.el)
+    else:
+        isdig = conj(disj([rng(e, 48, 57), rng(e, 65, 70), rng(e, 97, 102)]) for e in s.el)
     if ctx.branch(isdig):
+        if base == 16 and len(s.el) <= 8:
+            # stay in the bit-vector theory: nibbles of a 32-bit value
+            v = z3.BitVecVal(0, 32)
+            for e in s.el:
+                if isinstance(e, int):
+                    d = z3.BitVecVal(int(chr(e), 16), 32)
+                else:
+                    c = e if e.size() == 32 else z3.ZeroExt(24, e)
+                    d = z3.If(z3.ULE(c, 57), c - 48, z3.If(z3.ULE(c, 70), c - 55, c - 87))
+                v = (v << 4) | d
+            v = z3.simplify(v)
+            return v.as_long() if z3.is_bv_value(v) else SBVInt(v)
         v = 0
         for e in s.el:
-            d = (e - 48) if isinstance(e, int) else (z3.BV2Int(e) - 48)
-            v = v * 10 + d
+            if isinstance(e, int):
+                d = int(chr(e), base)
+            elif base == 10:
+                d = z3.BV2Int(e) - 48
+            else:
+                i = z3.BV2Int(e)
+                d = z3.If(i <= 57, i - 48, z3.If(i <= 70, i - 55, i - 87))
+            v = v * base + d
         return mki(v)
     if s.kind is str:
         # non-ASCII digits / whitespace are accepted by int(); outside the model
         if ctx.branch(disj(z3.UGE(e, 128) for e in s.el if not isinstance(e, int))):
             raise Unmodelled('int() of non-ASCII str')
-    if ctx.branch(nfa_formula(_INT_EXOTIC[s.kind], s.el)):
+    if ctx.branch(nfa_formula((_INT_EXOTIC if base == 10 else _INT16_EXOTIC)[s.kind], s.el)):
         # concretise: enumerate the literal (few characters)
         vals = []
         for e in s.el:
             vals.append(e if isinstance(e, int) else SInt(z3.BV2Int(e)).concretize())
         txt = bytes(vals) if s.kind is bytes else ''.join(map(chr, vals))
-        return int(txt)
-    raise ValueError('invalid literal for int() with base 10: <symbolic>')
+        return int(txt, base)
+    raise ValueError('invalid literal for int() with base %d: <symbolic>' % base)
 
 
 # ------------------------------------------------------------------ json stubs
@@ -304,6 +332,7 @@ def sym_int_of(s):
 class JsonStub:
     """nondeterministic contract stub for json.loads on symbolic text"""
     enabled = True
+    exact = True
 
 
 _detect_encoding = []
@@ -329,7 +358,14 @@ def _json_loads_sym(s):
         vals = None
     if vals is not None:
         return _json.loads(''.join(map(chr, vals)) if s.kind is str else bytes(vals))
-    # not determined: exact on a small catalogue of JSON texts of this length
+    # not determined: CPython's pure-Python decoder under the same instrumentation (sx/jsonmodel.py)
+    if JsonStub.exact:
+        from . import jsonmodel
+        try:
+            return jsonmodel.loads(s)
+        except Unmodelled as e:
+            ctx.flag('json-model-declined:%s' % str(e)[:40])
+    # fallback: exact on a small catalogue of JSON texts of this length
     # (an object, an array, a number -- padded with blanks), everything else is
     # *assumed* invalid.  Paths are flagged; only exception-type claims are made.
     ctx.flag('stubbed:json.loads')
@@ -383,9 +419,24 @@ def _sp_int(f, a, k):
     if a and isinstance(a[0], SInt):
         return a[0]
     if a and isinstance(a[0], SSeq):
-        if len(a) > 1 or k:
-            raise Unmodelled('int() with base')
-        return sym_int_of(a[0])
+        base = a[1] if len(a) > 1 else k.get('base', 10)
+        if len(a) > 2 or (k and list(k) != ['base']) or type(base) is not int:
+            raise Unmodelled('int() with unusual arguments')
+        return sym_int_of(a[0], base)
+    return f(*a, **k)
+
+
+def _sp_chr(f, a, k):
+    if a and isinstance(a[0], SInt):
+        v = a[0]
+        bv = getattr(v, 'bv', None)
+        if bv is not None and bv.size() >= 32:
+            if not bool(mkb(z3.ULE(bv, 0x10ffff))):
+                raise ValueError('chr() arg not in range(0x110000)')
+            return mk_seq((bv if bv.size() == 32 else z3.simplify(z3.Extract(31, 0, bv)),), str)
+        if not bool(mkb(z3.And(v.e >= 0, v.e <= 0x10ffff))):
+            raise ValueError('chr() arg not in range(0x110000)')
+        return mk_seq((z3.simplify(z3.Int2BV(v.e, 32)),), str)
     return f(*a, **k)
 
 
@@ -458,7 +509,7 @@ def _sp_ord(f, a, k):
         if len(a[0].el) != 1:
             raise TypeError('ord() expected a character')
         e = a[0].el[0]
-        return e if isinstance(e, int) else SInt(z3.BV2Int(e))
+        return e if isinstance(e, int) else SBVInt(e)
     return f(*a, **k)
 
 
@@ -511,7 +562,30 @@ def _concretize_ints(v):
     return v
 
 
+def _contains_sym_text(v):
+    if isinstance(v, SSeq):
+        return True
+    if isinstance(v, dict):
+        return any(_contains_sym_text(x) or _contains_sym_text(y) for x, y in v.items())
+    if isinstance(v, (list, tuple)):
+        return any(_contains_sym_text(x) for x in v)
+    return False
+
+
+def _sp_float(f, a, k):
+    if a and isinstance(a[0], SSeq):
+        from .codecs_model import _pinned
+        vals = _pinned(a[0])
+        return float(bytes(vals) if a[0].kind is bytes else ''.join(map(chr, vals)))
+    if a and isinstance(a[0], SInt):
+        return float(a[0].concretize())
+    return f(*a, **k)
+
+
 def _sp_json_dumps(f, a, k):
+    if a and _contains_sym_text(a[0]) and JsonStub.exact:
+        from . import jsonmodel
+        return jsonmodel.dumps(_plain(a[0]), *a[1:], **k)
     if a and _contains_sym(a[0]):
         return f(_concretize_ints(a[0]), *a[1:], **k)
     if a and isinstance(a[0], dict):
@@ -547,7 +621,7 @@ SPECIAL = {
     _re.compile: _sp_compile, _re.match: _sp_re_func, _re.search: _sp_re_func,
     _re.fullmatch: _sp_re_func, _re.sub: _sp_re_func, _re.finditer: _sp_re_func,
     _re.subn: _sp_re_func, _re.split: _sp_re_func, _re.findall: _sp_re_func,
-    builtins.len: _sp_len, builtins.ord: _sp_ord, builtins.repr: _sp_repr,
+    builtins.len: _sp_len, builtins.ord: _sp_ord, builtins.repr: _sp_repr, builtins.chr: _sp_chr, float: _sp_float,
     builtins.min: _sp_minmax, builtins.max: _sp_minmax, builtins.sum: _sp_sum,
     _json.loads: _sp_json_loads, _json.dumps: _sp_json_dumps,
 }
@@ -598,8 +672,16 @@ def h_call(f, *a, **k):
         # e.g. str.join(sep, items)
         if a and isinstance(a[0], SSeq):
             return getattr(a[0], f.__name__)(*a[1:], **k)
+        if a and isinstance(a[0], SInt) and f.__name__ in ('__repr__', '__str__'):
+            return _fmt_int_text(a[0])
         return f(*a, **k)
     return f(*a, **k)
+
+
+def _fmt_int_text(v):
+    if _wide_range(v):
+        raise Unmodelled('text of an unbounded symbolic integer')
+    return str(v.concretize())
 
 
 def _contains_sym(v):
@@ -710,6 +792,35 @@ def _fmt_piece(v, conv, spec):
         return tuple(map(ord, format(v, spec)))
     if isinstance(v, SSeq) and v.kind is str and conv in (None, 's') and spec == '':
         return v.el
+    if isinstance(v, SInt) and conv is None and _re.fullmatch(r'0?[1-8]?x', spec):
+        # zero-padded lower-case hex of a non-negative int below 16**8: digits are nibbles of the value
+        mm = _re.fullmatch(r'(0?)([1-8]?)x', spec)
+        width = int(mm.group(2) or 1)
+        if not mm.group(1) and width > 1:
+            Ctx.cur.flag('opaque-format')
+            return None
+        bv = getattr(v, 'bv', None)
+        if bv is not None and (bv.size() <= 32 or getattr(v, 'ub', 2 ** 64) < 2 ** 32):
+            bv = bv if bv.size() == 32 else (z3.ZeroExt(32 - bv.size(), bv) if bv.size() < 32 else z3.Extract(31, 0, bv))
+            n = width
+            while n < 8 and not bool(mkb(z3.ULT(bv, 16 ** n))):
+                n += 1
+        else:
+            if not bool(mkb(v.e >= 0)):
+                Ctx.cur.flag('opaque-format')
+                return None
+            n = width
+            while n <= 8 and not bool(mkb(v.e < 16 ** n)):
+                n += 1
+            if n > 8:
+                Ctx.cur.flag('opaque-format')
+                return None
+            bv = z3.Int2BV(v.e, 32)
+        out = []
+        for i in range(n - 1, -1, -1):
+            nib = z3.ZeroExt(28, z3.Extract(4 * i + 3, 4 * i, bv))
+            out.append(z3.simplify(z3.If(z3.ULT(nib, 10), nib + 48, nib + 87)))
+        return tuple(out)
     if isinstance(v, SInt) and conv in (None, 's') and spec in ('', 'd'):
         if _wide_range(v):
             Ctx.cur.flag('opaque-format')
